@@ -242,3 +242,25 @@ def metadata_is_set_on_the_node_resolved(c: Cache, path: str, other: str):
     else:
         check(r is g2[1].result.metadata, "the resolved node's metadata is returned")
     check(id_map(c, other) is before, "the id map is untouched")
+
+
+@lemma(props=["C19"], configs="none", opaque=["normalize_path"],
+       stubs={"cloudsync.hierarchical_cache:HierarchicalCache._new_node": {"results": ["node"]},
+              "cloudsync.hierarchical_cache:HierarchicalCache._HierarchicalCache__insert_node": {"results": ["None"]},
+              "cloudsync.hierarchical_cache:HierarchicalCache._check": {"results": ["None"]}})
+def created_nodes_are_inserted_at_the_normalised_path(c: Cache, path: str, oid: str):
+    """L19.11: create / mkdir (through __make_node): exactly one new node is made, of the type asked for (FILE for create,
+    DIRECTORY for mkdir) and with the id given, and that node is inserted once, at the provider-normalised form of the
+    path -- the form every path lookup resolves -- and returned"""
+    r = c._create(path, oid)
+    nn = calls("_new_node")
+    ins = calls("_HierarchicalCache__insert_node")
+    check(len(nn) == 1 and nn[0].args[0] == FILE and nn[0].args[1] == oid, "one new file node with the id given")
+    check(len(ins) == 1 and ins[0].args[0] is nn[0].result, "that node is inserted, once")
+    check(ins[0].args[1] == c._provider.normalize_path(path), "at the normalised path")
+    check(r is nn[0].result, "and returned")
+    r2 = c._mkdir(path, oid)
+    nn2 = calls("_new_node")
+    ins2 = calls("_HierarchicalCache__insert_node")
+    check(len(nn2) == 2 and nn2[1].args[0] == DIRECTORY and nn2[1].args[1] == oid, "mkdir: one new directory node with the id given")
+    check(len(ins2) == 2 and ins2[1].args[0] is nn2[1].result and ins2[1].args[1] == c._provider.normalize_path(path) and r2 is nn2[1].result, "inserted at the normalised path and returned")
